@@ -158,6 +158,8 @@ pub enum Plan {
     AfterList(usize),
 }
 
+pub const CONT_BEHIND_PRINT: &str = "PRINT \"AGAIN: \";:CONT";
+
 /// Type `first` (usually RUN) and then CONT until the program has really ended.
 /// `inspect`: a non-assigning direct line typed after every stop, before CONT.
 #[allow(clippy::too_many_arguments)]
@@ -236,6 +238,18 @@ pub fn run_to_completion(
         replies_before += replies_used(&evs);
         lists_before += evs.iter().filter(|e| matches!(e, Ev::List(..))).count();
         let mut t = tokens(&evs);
+        if line == CONT_BEHIND_PRINT {
+            // the resumption line's own output is not the program's
+            if let Some(Tok::Out(s)) = t.first_mut() {
+                if let Some(rest) = s.strip_prefix("AGAIN: ") {
+                    *s = rest.to_string();
+                }
+            }
+            if matches!(t.first(), Some(Tok::Out(s)) if s.is_empty()) {
+                t.remove(0);
+            }
+        }
+        let stopped_at_input_wait = o.intr_fired > 0 && w.intr_at_input_wait;
         if w.fatal.is_some() {
             merge_tokens(&mut c.toks, t);
             return c;
@@ -261,11 +275,24 @@ pub fn run_to_completion(
         }
         if let Some(i) = inspect {
             if has_break(&evs) || evs.iter().any(|e| matches!(e, Ev::Break)) {
-                w.line(i, &LineIo::budget(2000));
+                // (an inspection line may be an INPUT of its own: it gets its own reply)
+                let io = LineIo {
+                    replies: vec!["5".to_string()],
+                    max_instr: 2000,
+                    ..Default::default()
+                };
+                w.line(i, &io);
             }
         }
         c.conts += 1;
-        line = "CONT".to_string();
+        // broken at a pending INPUT prompt: the operator may resume behind a PRINT that leaves the
+        // cursor mid-line; the prompt is shown again and the reply's line feed resets the column
+        line = if w.cont_behind_print && stopped_at_input_wait {
+            w.stats.bump("c13.cont_typed_behind_print");
+            CONT_BEHIND_PRINT.to_string()
+        } else {
+            "CONT".to_string()
+        };
     }
 }
 
